@@ -60,8 +60,10 @@ type c16World struct {
 	nch         int
 	outV2       bool
 	sources     []hbSource
-	others      int // non-heartbeat frames interleaved
-	tcpPeers    int // peers on one TCP server endpoint, all announcing the same ArduPilot (system 1, component 1)
+	others      int    // non-heartbeat frames interleaved
+	tcpPeers    int    // peers on one TCP server endpoint, all announcing the same ArduPilot (system 1, component 1)
+	timeouts    string // default | idle<=period | all-short: the node's timeout fields, which have nothing to do with heartbeats
+	manySenders int    // ArduPilot senders (distinct ids, channel 0) heard before everything else
 }
 
 func (w *c16World) describe() string {
@@ -69,8 +71,8 @@ func (w *c16World) describe() string {
 	for _, h := range w.sources {
 		s = append(s, fmt.Sprintf("(ch%d sys%d comp%d ap%d v2=%v x%d)", h.ch, h.sys, h.comp, h.autopilot, h.v2, h.repeat))
 	}
-	return fmt.Sprintf("dialect=%s version=%d heartbeat=%v period=%v type=%d autopilot=%d streamreq=%v freq=%d channels=%d outV2=%v others=%d tcpPeersOnOneEndpoint=%d sources=%s",
-		w.dialectKind, w.version, w.hbEnabled, w.period, w.sysType, w.apType, w.srEnabled, w.freq, w.nch, w.outV2, w.others, w.tcpPeers, strings.Join(s, " "))
+	return fmt.Sprintf("dialect=%s version=%d heartbeat=%v period=%v type=%d autopilot=%d streamreq=%v freq=%d channels=%d outV2=%v others=%d tcpPeersOnOneEndpoint=%d timeouts=%s arduPilotSendersHeardFirst=%d sources=%s",
+		w.dialectKind, w.version, w.hbEnabled, w.period, w.sysType, w.apType, w.srEnabled, w.freq, w.nch, w.outV2, w.others, w.tcpPeers, w.timeouts, w.manySenders, strings.Join(s, " "))
 }
 
 func (w *c16World) dialect() *dialect.Dialect {
@@ -113,7 +115,7 @@ func hasStd(d *dialect.Dialect, id uint32, std message.Message) bool {
 
 func TestC16Automatic(t *testing.T) {
 	rec := evid.New(t, "C16", "generated node configurations (heartbeat on/off, period 20-80ms, system/autopilot type, dialect in {common, ardupilotmega, minimal, user dialects with version 0..255 with / without / with a fake HEARTBEAT or REQUEST_DATA_STREAM, none}, stream requests on/off, frequency 1..50, 1..3 channels, v1/v2 output) and histories of incoming heartbeats from generated (channel, system, component, autopilot) sources repeated several times and interleaved with other messages; oracles: heartbeats on every channel with the configured fields, status 4, dialect version, at most elapsed/period+1 of them and at least 2, none when disabled or the dialect lacks the standard message; for each distinct ArduPilot sender exactly the seven data-stream requests (1,2,3,6,10,11,12) at the configured rate addressed to it on its channel only plus one stream-requested event, nothing for other autopilots, other messages or when disabled; non-trivial = >=2 ArduPilot senders on >=2 channels plus a non-ArduPilot sender; distinct by hash of the scenario")
-	rec.Require("hb-enabled", "hb-disabled-or-missing", "sr-enabled-with-ardupilot", "sr-not-applicable", "multi-sender-multi-channel", "user-dialect", "v1-output", "several-channels-one-endpoint", "dialect-version-0", "ardupilot-sender-with-the-node's-own-ids")
+	rec.Require("hb-enabled", "hb-disabled-or-missing", "sr-enabled-with-ardupilot", "sr-not-applicable", "multi-sender-multi-channel", "user-dialect", "v1-output", "several-channels-one-endpoint", "dialect-version-0", "ardupilot-sender-with-the-node's-own-ids", "more-than-1024-senders", "heartbeats-with-short-node-timeouts")
 	evid.Check(t, rec, evid.N(200, 600), func(t *rapid.T) {
 		drawNodeInit(t)
 		w := &c16World{}
@@ -144,6 +146,13 @@ func TestC16Automatic(t *testing.T) {
 		w.others = rapid.IntRange(0, 10).Draw(t, "others")
 		if rapid.IntRange(0, 2).Draw(t, "tcp") == 0 {
 			w.tcpPeers = rapid.IntRange(2, 3).Draw(t, "tcp_peers")
+		}
+		w.timeouts = "default"
+		if w.tcpPeers == 0 {
+			w.timeouts = rapid.SampledFrom([]string{"default", "default", "idle<=period", "all-short"}).Draw(t, "timeouts")
+		}
+		if w.srEnabled && rapid.IntRange(0, 11).Draw(t, "many_senders") == 0 {
+			w.manySenders = rapid.IntRange(1025, 1100).Draw(t, "n_senders")
 		}
 		var cls []string
 		err := watchdog(scenarioLimit, func() error {
@@ -187,6 +196,12 @@ func runC16(w *c16World) ([]string, error) {
 	if w.outV2 {
 		n.OutVersion = gomavlib.V2
 	}
+	switch w.timeouts {
+	case "idle<=period":
+		n.IdleTimeout = w.period / 2
+	case "all-short":
+		n.IdleTimeout, n.ReadTimeout, n.WriteTimeout = w.period, w.period/2, w.period/3
+	}
 	t0 := time.Now()
 	if err := initNode(&n); err != nil {
 		return nil, fmt.Errorf("BROKEN: %v", err)
@@ -220,6 +235,20 @@ func runC16(w *c16World) ([]string, error) {
 	for _, h := range w.sources {
 		if h.repeat > maxRepeat {
 			maxRepeat = h.repeat
+		}
+	}
+	// a large fleet heard first (distinct ids outside the ranges used below): every one of them is a sender like
+	// any other, and so is whoever speaks up after them
+	for j := 0; j < w.manySenders; j++ {
+		sys, comp := byte(10+j/100), byte(100+j%100)
+		hb := &minimal.MessageHeartbeat{Type: 2, Autopilot: 3, SystemStatus: 4, MavlinkVersion: 3}
+		f := ref.Frame{V2: true, Seq: byte(j), Sys: sys, Comp: comp, ID: 0}
+		f.Payload = hbLay.Encode(hb, true)
+		f.Checksum = f.ChecksumFor(hbLay.CRCExtra)
+		pipes[0].Feed(f.Bytes())
+		ardu[key{0, sys, comp}] = true
+		if j%64 == 63 {
+			pipes[0].WaitDrained(bound)
 		}
 	}
 	for r := 0; r < maxRepeat; r++ {
@@ -551,6 +580,12 @@ func runC16(w *c16World) ([]string, error) {
 	}
 	if !w.outV2 {
 		cls = append(cls, "v1-output")
+	}
+	if w.manySenders > 0 && srActive {
+		cls = append(cls, "more-than-1024-senders")
+	}
+	if w.timeouts != "default" && hbExpected {
+		cls = append(cls, "heartbeats-with-short-node-timeouts")
 	}
 	for kk := range ardu {
 		if srActive && kk.sys == nodeSys && kk.comp == nodeComp {
